@@ -434,7 +434,7 @@ func c04ConfigPath(ctx *Ctx, idx int) {
 	var sb strings.Builder
 	sensorFile := filepath.Join(dir, "sensor")
 	_ = os.WriteFile(sensorFile, []byte("50000\n"), 0644)
-	fmt.Fprintf(&sb, "dbPath: %s/fan2go.db\nsensors:\n  - id: %ss\n    file:\n      path: %s\ncurves:\n  - id: %sc\n    linear:\n      sensor: %ss\n      min: 0\n      max: 100\nfans:\n", dir, pfx, sensorFile, pfx, pfx)
+	fmt.Fprintf(&sb, "dbPath: %s/fan2go.db\ncontrollerAdjustmentTickRate: 20ms\nsensors:\n  - id: %ss\n    file:\n      path: %s\ncurves:\n  - id: %sc\n    linear:\n      sensor: %ss\n      min: 0\n      max: 100\nfans:\n", dir, pfx, sensorFile, pfx, pfx)
 	for i, f := range forms {
 		ff := filepath.Join(dir, fmt.Sprintf("fan%d", i))
 		_ = os.WriteFile(ff, []byte("0\n"), 0644)
@@ -492,12 +492,21 @@ func c04ConfigPath(ctx *Ctx, idx int) {
 				sensor.SetMovingAvg(temp)
 			}
 			advance(time.Duration(tick) * time.Millisecond)
+			if f.kind == "ratelimit" && (k == 3 || k == 203) {
+				// a cycle that comes late (slow tool, loaded machine, process stopped for a moment): 3.5 update periods of real time
+				time.Sleep(70 * time.Millisecond)
+			}
+			prevReq, hadPrev := ctrl.VerifLastSetPwm()
 			if e := ctrl.UpdateFanSpeed(); e != nil {
 				ctx.Violation("config-path:error:"+f.name, e.Error(), sb.String())
 				return
 			}
+			v, _ := ctrl.VerifLastSetPwm()
+			if f.kind == "ratelimit" && hadPrev && (v-prevReq > 7 || prevReq-v > 7) {
+				ctx.Violation("config-path:step-exceeds-maxPwmChangePerCycle:"+f.name, fmt.Sprintf("cycle %d: request %d -> %d with maxPwmChangePerCycle: 7 (controllerAdjustmentTickRate 20ms; cycles 3 and 203 come 70 ms after their predecessor)", k, prevReq, v), sb.String())
+				return
+			}
 			if k >= 200 {
-				v, _ := ctrl.VerifLastSetPwm()
 				reqs = append(reqs, v)
 			}
 		}
